@@ -54,6 +54,15 @@ def make(targets=None, jobs=None, timeout=1500):
         jobs = jobs or njobs(8)
         cmd = ['timeout', str(timeout), 'make', '-j%d' % jobs] + (targets or [])
         r = subprocess.run(cmd, cwd=COQDIR, stdout=subprocess.PIPE, stderr=subprocess.STDOUT, text=True)
+        if r.returncode != 0 and ('No rule to make target' in r.stdout or 'No such file' in r.stdout):
+            # a source file appeared/vanished between project generation and the build: regenerate once and retry
+            try: os.unlink(os.path.join(COQDIR, '_CoqProject'))
+            except OSError: pass
+            for d in ('.Makefile.d', 'Makefile.conf'):
+                try: os.unlink(os.path.join(COQDIR, d))
+                except OSError: pass
+            gen_project()
+            r = subprocess.run(cmd, cwd=COQDIR, stdout=subprocess.PIPE, stderr=subprocess.STDOUT, text=True)
         return r.returncode == 0, r.stdout
     finally:
         lk.close()
